@@ -373,6 +373,7 @@ pub open spec fn level_post(s: GEl, w: GEl, p: Seq<RdItem>, known: Seq<String>, 
     &&& g_wf(w)
     &&& g_has(w.kids, m) == (g_has(s.kids, m) || o > 0)
     &&& (o == 0 && g_has(s.kids, m) ==> g_kid(w.kids, m) == g_kid(s.kids, m))
+    &&& (g_has(s.kids, m) ==> g_kid(w.kids, m).val().count >= g_kid(s.kids, m).val().count)
     &&& (o > 0 ==> {
             &&& g_kid(w.kids, m) is Mandatory
             &&& (g_has(s.kids, m) ==> cnt_after(g_kid(s.kids, m).val().count, g_kid(w.kids, m).val().count))
@@ -481,6 +482,8 @@ pub open spec fn occ_post(x: Option<GEl>, y: GEl, t: Tag, o: nat, text: bool, m:
             &&& (g_kid(y.kids, m) is Mandatory ==> o > 0 && (x is None || (g_has(xk, m) && g_kid(xk, m) is Mandatory)))
             // single <=> single so far and at most once in this occurrence
             &&& g_kid(y.kids, m).val().standalone == ((g_has(xk, m) ==> g_kid(xk, m).val().standalone) && o <= 1)
+            // the occurrence counter never decreases
+            &&& (g_has(xk, m) ==> g_kid(y.kids, m).val().count >= g_kid(xk, m).val().count)
         })
 }
 pub proof fn lemma_snapshot_char(kids: Seq<Necessity<GEl>>, m: String)
